@@ -16,6 +16,8 @@ initial state and of the grid, never with the objects handed to pygom.
 History and input form: `gridRows` / `addJumpsBetweenTime` are pure functions of (raw path, grid), the raw path a pure
 function of (configuration, x0, t0, draws); stoch_common.run_session probes on the real code that earlier calls, left-over
 configuration, the form / dtype of x0 and of the grid and other instances do not enter.
+The FORM of the boolean options is varied as well (`exact` / `full_output` as 1 / 0 or numpy.bool_, full_output off): the property speaks
+about the mode that was RUN - rows of a first-reaction path are looked up whatever object said `exact` (seeded C15-d1: `exact is True`).
 Tau-leap rows are numpy's linear interpolation of the raw path: not part of the property's statement (which speaks about
 exact mode), compared with the harness's own interpolation as a correspondence item (a mismatch, not a violation).
 """
@@ -42,7 +44,9 @@ RULE = ("bounded-rate event models (shared generator), integer initial states ha
         "left over, initial values re-assigned in another form or with other values, parameters changed and restored, a deep copy of the configured instance taking over, sibling instance in between, first call "
         "repeated, last call repeated on a fresh instance, every returned array kept and compared again at the end, the caller's "
         "x0 and grid objects unchanged - side effects the pure model excludes but the property does not state are tags and broken "
-        "correspondence, never violations); a case is non-trivial when some interval holds >= 2 events")
+        "correspondence, never violations); the boolean options in every accepted FORM: `exact` and `full_output` as True / False, 1 / 0 or "
+        "numpy.bool_ (half of the calls each; the unchanged tree tests truthiness), full_output off in 1 of 8 calls (rows judged, no "
+        "counts returned); the fresh reference and the repeated call use their own form; a case is non-trivial when some interval holds >= 2 events")
 ASSUMPTIONS = ["no event time coincides with an interior grid point (hypothesis of rows_differ_by_vmat_counts; probability zero for "
                "exponential waiting times; the crafted case reports what the code does there as an observation)",
                "the state-change matrix does not depend on the state (numeric magnitudes)",
@@ -54,6 +58,19 @@ def _forms(r, base, sim):
     nS = len(base["x0"])
     sim["x0_form"] = r.choice([f for f in SC.X0_FORMS if f != "scalar" or nS == 1])
     sim["t0_form"] = r.choice(["np_f64"] * 6 + ["np_i64", "np_i64", "np_f32", "np_f32"])
+
+
+def _flag_forms(r, sim):
+    """the FORM of the boolean options of a one-call case (drawn last: the rest of the case is what it was without them): `exact` and
+    `full_output` as 1 / 0 or numpy.bool_ (half of the cases each), full_output off in 1 of 8 (the state arrays alone are returned).
+    The property speaks about the mode that was RUN: a path made by the first-reaction method is looked up, never interpolated,
+    whatever object said `exact`."""
+    if r.random() < 0.5:
+        sim["exact_form"] = r.choice(["int", "np_bool"])
+    if r.random() < 0.5:
+        sim["full_output_form"] = r.choice(["int", "np_bool"])
+    if r.random() < 0.125:
+        sim["full_output"] = False
 
 
 def make_cases(rng, tier, budget):
@@ -92,6 +109,7 @@ def make_cases(rng, tier, budget):
         c["sim"]["T"] = g[-1]
         _forms(r, base, c["sim"])
         c["max_steps"] = budget.get("max_steps", SC.MAX_STEPS)
+        _flag_forms(r, c["sim"])
         cases.append(c)
     n = 0
     while n < budget.get("sessions", 0):
@@ -104,6 +122,7 @@ def make_cases(rng, tier, budget):
         c["sim"] = SC.sim_settings(r, base, r.choice(["exact", "exact", "tau_adaptive", "tau_fixed"]), steps=budget.get("session_steps", budget.get("steps")))
         _forms(r, base, c["sim"])
         c["session"] = SC.gen_session(r, base, c["sim"], grid_share=0.75, exact_share=0.65, sibling_base=sib)
+        SC.add_flag_forms(r, c["session"], share=0.5, full_output_false=0.125)
         c["max_steps"] = budget.get("max_steps", SC.MAX_STEPS)
         cases.append(c)
         n += 1
@@ -172,7 +191,13 @@ def run_case(case):
                          "detail": "x0=%s (%s) grid=%s (%s) raw path lengths %s, op %d" % (call.x0, sim["x0_form"], grid, call.ts["kind"], [len(j["T"]) for j in tr.jumps], call.index)})
             tags.append("raised:" + kind)
             return False
-        Xg, Jg, Tg = tr.result
+        full = getattr(call, "full_output", True)
+        # full_output switched off (in whatever form): the list of state arrays alone; rows are judged, counts are not returned
+        Xg, Jg, Tg = tr.result if full else (tr.result, None, np.array(grid))
+        if not full and not (isinstance(tr.result, list) and all(isinstance(a, np.ndarray) for a in tr.result)):
+            viol.append({"what": "solve_stochast(grid, full_output=<false>) does not return the list of state arrays", "signature": "C15:full-output-off:%s" % modek,
+                         "detail": "returned %s (full_output handed over as %r), op %d" % (type(tr.result).__name__, call.op.get("full_output_form") or "bool", call.index)})
+            return False
         if ta.get("err") or ta.get("grid") is None or [SC.fr(v) for v in ta["grid"]] != [SC.fr(SC.q(g)) for g in grid] or not isinstance(Tg, np.ndarray):
             mism.append({"what": "time_arg", "detail": "lean %s python returned %s" % (ta, type(Tg).__name__)})
         elif not np.array_equal(np.asarray(Tg, float), np.array(grid)):
@@ -180,7 +205,8 @@ def run_case(case):
         x0 = np.array(call.x0, float)                    # the harness's own copy, never the array handed to pygom
         V = np.asarray(tr.evaluators["vMat"](x0, sim["t0"]), float).reshape(nS, nE)
         sig = lambda what: "C15:%s:%s" % (what, modek)
-        here = " [call at op %d, x0 handed over as %s, grid as %s]" % (call.index, sim["x0_form"], call.ts["kind"])
+        here = " [call at op %d, x0 handed over as %s, grid as %s, exact as %s, full_output as %s%s]" % (
+            call.index, sim["x0_form"], call.ts["kind"], call.op.get("exact_form") or "bool", call.op.get("full_output_form") or "bool", "" if full else " (off)")
         if len(Xg) != sim["iterations"]:
             viol.append({"what": "not one gridded path per requested iteration", "signature": sig("paths-count"),
                          "detail": "%d paths for %d iterations" % (len(Xg), sim["iterations"]) + here})
@@ -192,7 +218,7 @@ def run_case(case):
                 J = J.reshape(0, nE)
             if abs(jr["finalT"] - grid[-1]) > 0 or (not ta.get("err") and SC.fr(ta["final_t"]) != SC.fr(SC.q(grid[-1]))):
                 mism.append({"what": "time_arg:finalT", "detail": "_jump got %r, grid ends at %r, lean %s" % (jr["finalT"], grid[-1], ta.get("final_t"))})
-            rows = np.array(Xg[p], float); cnt = np.array(Jg[p], float)
+            rows = np.array(Xg[p], float); cnt = np.array(Jg[p], float) if full else None
             if len(T) == 1: tags.append("path_without_events")
             if T[-1] < grid[-1] and not jr["truncated"]: tags.append("grid_past_end_of_path")
             if jr["truncated"]: tags.append("truncated")
@@ -203,7 +229,9 @@ def run_case(case):
             if exact and not (rows.shape == (len(grid), nS) and all(SC.same_vec(lrw, rw) for lrw, rw in zip(r["rows"], rows))):
                 mism.append({"what": "grid:rows", "detail": "lean %s python %s (raw T=%s)" % ([[float(SC.fr(v)) for v in w] for w in r["rows"]][:6], rows.tolist()[:6], T.tolist()[:8])})
             lc = [[int(v) for v in row] for row in r["interval_counts"]]
-            if cnt.shape != (len(grid) - 1, nE) or lc != [[int(v) for v in row] for row in cnt.tolist()] or not np.all(np.mod(cnt, 1) == 0):
+            if cnt is None:
+                pass
+            elif cnt.shape != (len(grid) - 1, nE) or lc != [[int(v) for v in row] for row in cnt.tolist()] or not np.all(np.mod(cnt, 1) == 0):
                 mism.append({"what": "grid:interval-counts", "detail": "lean %s python %s" % (lc[:6], cnt.tolist()[:6])})
             # ---- direct oracle
             if rows.ndim != 2 or rows.shape[0] != len(grid) or rows.shape[1] != nS:
@@ -233,7 +261,7 @@ def run_case(case):
                     viol.append({"what": "row k is not the state of the underlying path at time t_k", "signature": sig("row-lookup"),
                                  "detail": "row %d (t=%r) = %s, path state %s" % (k, grid[k], rows[k].tolist(), look[k].tolist()) + here})
                 if max(per_int + [0]) >= 2: S["nontrivial"] = True
-                if not on_grid:
+                if not on_grid and cnt is not None:
                     if cnt.shape != ref.shape or not np.array_equal(cnt, ref):
                         k = int(np.argmax(np.any(cnt != ref, axis=1))) if cnt.shape == ref.shape else 0
                         viol.append({"what": "per-interval counts are not the per-transition event counts of the interval", "signature": sig("interval-counts"),
@@ -244,7 +272,7 @@ def run_case(case):
                                      "detail": "interval %d: rows %s -> %s, counts %s, V.counts %s" % (k, rows[k].tolist(), rows[k + 1].tolist(), cnt[k].tolist(), V.dot(cnt[k]).tolist()) + here})
             else:
                 if max(per_int + [0]) >= 1: S["nontrivial"] = True
-                if not on_grid and (cnt.shape != ref.shape or not np.array_equal(cnt, ref)):
+                if not on_grid and cnt is not None and (cnt.shape != ref.shape or not np.array_equal(cnt, ref)):
                     viol.append({"what": "per-interval counts are not the per-transition event counts of the interval (tau-leap)", "signature": sig("interval-counts"),
                                  "detail": "reported %s, events of the path %s" % (cnt.tolist()[:5], ref.tolist()[:5]) + here})
                 # tau-leap rows: whatever is meant by "the value at t_k" of a path recorded at leap ends (previous record, next
